@@ -56,7 +56,26 @@ def _cc(args):
     r = run(['gcc'] + flags + ['-c', src, '-o', obj])
     return (src, r.returncode, r.stdout)
 
+_cfg_done = False
+def ensure_configured():
+    """/repo is normally configured (its own test suite needs that).  If config.h is missing (a pristine checkout), it is
+    generated OUT OF TREE in the scratch directory, so that nothing is written to /repo beyond what autogen.sh creates when
+    even `configure` is absent."""
+    global _cfg_done
+    if _cfg_done or os.path.exists(os.path.join(REPO, 'config.h')):
+        _cfg_done = True; return
+    cfg = os.path.join(scratch(), 'cfg')
+    os.makedirs(cfg, exist_ok=True)
+    if not os.path.exists(os.path.join(REPO, 'configure')):
+        run(['sh', './autogen.sh'], cwd=REPO)
+    r = run([os.path.join(REPO, 'configure')], cwd=cfg)
+    if r.returncode != 0 or not os.path.exists(os.path.join(cfg, 'config.h')):
+        raise BuildError('config.h is missing in %s and configure failed:\n%s' % (REPO, (r.stdout or '')[-1500:]))
+    BASE_CFLAGS.insert(0, '-I' + cfg)
+    _cfg_done = True
+
 def build_objects(srcs, outdir, extra=(), opt='-O1'):
+    ensure_configured()
     os.makedirs(outdir, exist_ok=True)
     jobs = []
     for s in srcs:
